@@ -76,6 +76,10 @@ class Ctx:
     def prog(self, config='all'):
         if config not in self._progs:
             f, info = factsmod.extract(config, self.repo)
+            from . import inline
+            f, inlined = (f, []) if os.environ.get('VERIF_NO_INLINE') else inline.inline_unknown(f)
+            if inlined:
+                info['inlined_unknown_helpers'] = sorted({'%s <- %s' % (a.split('::', 1)[-1], b.split('::', 1)[-1]) for a, b in inlined})[:40]
             self.extract_info.append(info)
             self._progs[config] = mir.Program(f)
         return self._progs[config]
